@@ -91,6 +91,15 @@ CHECKS = {
             "Random sequences of Put/PutMany/Get/Has/GetSize/DeleteBlock/HashOnRead with live and cancelled contexts over blocks of many sizes, CID versions, codecs and hash functions, alias CIDs of one multihash, and deliberately "
             "mismatching (data, CID) pairs; each result is compared with a map keyed by multihash and with the contract clauses (not-found error class, ErrWrongHash exactly when enabled and mismatching, no effect of cancelled calls).",
             BASE, "4 C15"),
+    "C16": (True, "exploration", "generated concurrent programs executed under the Go race detector (free-running; reports parsed into signatures)",
+            "Random concurrent programs (3-8 goroutines looping over the whole public API incl. all storage-size queries, file-cache resizing, iteration and explicit primary GC) on a started store with sub-millisecond to millisecond sync and GC intervals and tiny files, "
+            "built with -race; no scheduler and no point handler are installed because they would add happens-before edges. Every race report is a violation, identified by the innermost module frames of the two accesses.",
+            BASE + " The Go race detector is the oracle: sound for the executions that happened, silent about code that did not run concurrently. Index GC cycles are only run by the store's own collector (the verif wrapper is not used here).", "4 C16"),
+    "C17": (True, "exploration", "schedule exploration with adopted background goroutines + resource census (goroutines by stack, /proc/self/fd, directory hashes)",
+            "Four generated situations: Close issued while a collector or the flusher is held by the cooperative scheduler at a drawn point inside a cycle (the store's own goroutines are adopted as tasks at their first named point), Close after free-running activity with 1 ms timers, "
+            "failing opens of existing stores (size mismatches, garbage/empty headers, unknown primary type), and repeated open/close cycles. Right after Close (or the failed open) returns there must be no goroutine with a module frame, no descriptor into the store directory, "
+            "and the directory must stay byte-identical across a pause and after all held goroutines were released; second Close nil; reopen works.",
+            BASE + " Goroutines are identified by module frames in runtime.Stack, descriptors by /proc/self/fd (Linux).", "4 C17"),
 }
 
 NOT_YET = "check not implemented yet in this revision of /verif (work in progress, see DESIGN.md section 8)"
